@@ -99,11 +99,21 @@ func VerifC04Session() {
 		if zzverif.Bool("showCursor") {
 			vx.ShowCursor(1, 1, CursorBeam)
 		}
-		if zzverif.Bool("pointer") {
+		pointer := zzverif.Bool("pointer")
+		if pointer {
 			vx.SetMouseShape(MouseShapeClickable)
 		}
 		vx.Render()
 		t.feed(con.take())
+		// a shape requested after the last frame (never rendered) must not confuse shutdown
+		if pointer {
+			switch zzverif.Choose("pointerAfterFrame", 3) {
+			case 1:
+				vx.SetMouseShape(MouseShapeTextInput)
+			case 2:
+				vx.SetMouseShape(MouseShapeDefault)
+			}
+		}
 	}
 	cycles := zzverif.Choose("cycles", 1+zzverif.Param("maxcycles"))
 	for i := 0; i < cycles; i++ {
